@@ -14,6 +14,11 @@ MODULE = 'mc.props.c02'
 EXCLUDED = {'rxnk', 'rx1nk'}     # the value does not determine a regex delimiter that is not kept
 
 
+def optimized_specs(tier):
+    """every component alone, once more under python -O (assert statements stripped)"""
+    return [{'names': [c], 'wrapper': 'a'} for c in alphabet.COMPONENTS if c not in globals().get('EXCLUDED', ())]
+
+
 def decl_specs(tier):
     from mc.props import c01
     comps = [c for c in alphabet.COMPONENTS if c not in EXCLUDED]
@@ -164,6 +169,10 @@ def check_decl(dc, st, tier, only=None):
 
 def run(tier):
     st = ea.run(MODULE, tier)
+    from mc import ea_o
+    so = ea_o.run(MODULE, tier)         # every component alone once more under python -O (assert statements stripped)
+    st.merge(so)
+    st.notes.extend(so.notes)
     LADDER_NOTE = '; plus the shared size and structure ladders (mc/alphabet.py boundary_specs / structure_specs): lengths and counts 5, 8, 9, 16, 17, 32, 33, 64, 65, 128, 129, 255, 256, 257, 1024, 1025, 4096, 4097, 8192, 8193 behind one-, two- and three-byte length fields with their exact encodings (and the same cut short), constant counts and sizes 15..257 first in a packet, far positions (holes of 255..8192 bytes), chains of 4..8 references, lists of lists of lists, nine-byte integers, bit runs of 40/72/80 bits, declarations of 24 components and runs of 17..40 fixed fields, holders whose options differ from the held class, the nested class alone on the field-by-field loop'
     cov = ea.coverage(st, 'every declaration of the alphabet (minus regex delimiters not kept in the value); value assignments = all distinct values '
                           'the reference parses from the input enumeration plus the defaults, each built by keywords and by attribute assignment; '
@@ -172,8 +181,13 @@ def run(tier):
                       {'value_sets': st.n.get('value_sets', 0), 'not_encodable': st.n.get('not_encodable', 0),
                        'reference_does_not_roundtrip': st.n.get('ref_nonroundtrip', 0)})
     cov['rule'] += LADDER_NOTE
+    cov['rule'] += '; every component alone once more in child interpreters started with -O'
+    cov['programs_under_python_O'] = st.n.get('programs_under_O', 0)
     return {'stats': st, 'coverage': cov, 'assumptions': ['reference interpreter mc/refsem.py']}
 
 
 def replay(case):
+    if case.get('optimized') and sys.flags.optimize < 1:
+        from mc import ea_o
+        return ea_o.replay(MODULE, case)
     return ea.replay_decl(sys.modules[__name__], case)
